@@ -112,6 +112,7 @@ cJSON *create_routed_message(const struct peer *p, const char *path, enum type w
 	} else {
 		cJSON *params = cJSON_CreateObject();
 		if (unlikely(params == NULL)) {
+			cJSON_Delete(value_copy);
 			goto error;
 		}
 		cJSON_AddItemToObject(message, "params", params);
